@@ -191,6 +191,10 @@ impl ObjUpvalue {
     }
 
     pub(crate) fn get(&self) -> Value {
+        #[cfg(feature = "verif_hooks")]
+        if let ObjUpvalueState::Open(a) = self.data {
+            crate::memory::verif::check_stack_address(a as usize);
+        }
         match self.data {
             ObjUpvalueState::Open(a) => unsafe { *a },
             ObjUpvalueState::Closed(v) => v,
@@ -198,6 +202,10 @@ impl ObjUpvalue {
     }
 
     pub(crate) fn set(&mut self, value: Value) {
+        #[cfg(feature = "verif_hooks")]
+        if let ObjUpvalueState::Open(a) = self.data {
+            crate::memory::verif::check_stack_address(a as usize);
+        }
         match self.data {
             ObjUpvalueState::Open(a) => unsafe { *a = value },
             ObjUpvalueState::Closed(ref mut v) => *v = value,
@@ -1155,6 +1163,12 @@ impl GcManaged for ObjFiber {
             caller.blacken();
         }
         self.return_value.blacken();
+    }
+
+    #[cfg(feature = "verif_hooks")]
+    fn verif_dead_range(&self) -> Option<(usize, usize)> {
+        let lo = self.stack.as_ptr() as usize;
+        Some((lo, lo + STACK_MAX * std::mem::size_of::<Value>()))
     }
 }
 
